@@ -652,6 +652,8 @@ def counted(run, p):
         f = sh.methods.get(nm)
         if f is None:
             raise AnalysisError('SQLDatabaseHandler.%s vanished' % nm)
+        from ..specialise import flat
+        f = flat(p, f, sh.qn)          # a wrapper over a shared counting helper is read as the body it runs
         binds = {}
         for x in p.own_nodes(f):
             if isinstance(x, ast.Assign) and len(x.targets) == 1 and isinstance(x.targets[0], ast.Name):
@@ -667,8 +669,8 @@ def counted(run, p):
             return False
         rets = [x for x in p.own_nodes(f) if isinstance(x, ast.Return)]
         bad = [r for r in rets if r.value is None or not is_query(r.value)]
-        texts = [c.value for c in ast.walk(f.node) if isinstance(c, ast.Constant) and isinstance(c.value, str)]
-        has = any('COUNT' in t.upper() and word in ' '.join(t.upper().split()) for t in texts)
+        texts = [' '.join(c.value.upper().split()) for c in ast.walk(f.node) if isinstance(c, ast.Constant) and isinstance(c.value, str)]
+        has = any('COUNT(' in t.replace(' ', '') for t in texts) and any(word in t for t in texts)      # in one literal or in the pieces of one
         n += 1
         run.ob('C07-COUNTED', '%s::%s' % (f.rel, f.short), bool(rets) and not bad and has,
                '%s: %s' % (f.short, 'every return is the result of a COUNT ... %s query' % word if rets and not bad and has else
